@@ -74,24 +74,19 @@ Theorem display_cites : forall path src k p s,
   is_prefix (path ++ [58] ++ dec (np_row p + 1) ++ [58] ++ dec (np_col p + 1) ++ [58]) s = true.
 Proof. exact display_plain_cites_lemma. Qed.
 
-(* FULL STATEMENT (does NOT hold of the code):
-     forall path src k p s, display_pretty path src k p = Ok s ->
-       contains (path ++ [58] ++ dec (np_row p + 1) ++ [58] ++ dec (np_col p + 1) ++ [58]) s = true.
-   It fails for every node whose byte range is empty — i.e. for every MISSING node, which is zero
-   width: ParseErrorDisplayPretty then prints "missing syntax\n\n" and no position at all (see
-   display_pretty_empty_range below; observed on the real library, harness tag
-   `pretty_without_position`).  Proved: the statement for non-empty ranges. *)
-Theorem display_pretty_cites_partial : forall path src k p s,
-  range_is_empty p = false ->
+(* the pretty display contains "path:row+1:col+1:" for EVERY node, zero-width (MISSING) ones included *)
+Theorem display_pretty_cites : forall path src k p s,
   display_pretty path src k p = Ok s ->
   contains (path ++ [58] ++ dec (np_row p + 1) ++ [58] ++ dec (np_col p + 1) ++ [58]) s = true.
 Proof. exact display_pretty_cites_lemma. Qed.
 
-(* what the code does for an empty range: kind and an empty line, the position is not in the text *)
-Theorem display_pretty_empty_range : forall path src k p, range_is_empty p = true ->
-  display_pretty path src k p = Ok (kind_text k ++ [10; 10]) /\
-  contains (path ++ [58] ++ dec (np_row p + 1) ++ [58] ++ dec (np_col p + 1) ++ [58]) (kind_text k ++ [10; 10]) = false.
-Proof. exact display_pretty_empty_lemma. Qed.
+(* what a zero-width node (every MISSING node) gets: the kind line and the excerpt with the empty
+   column range col..col (location header, source line, caret line without carets) *)
+Theorem display_pretty_zero_width : forall path src k p,
+  wf_pos src p = true -> np_start p = np_end p ->
+  display_pretty path src k p =
+    Ok ((kind_text k ++ [10]) ++ excerpt path src (np_row p) (np_col p) (np_col p)).
+Proof. exact display_pretty_zero_width_lemma. Qed.
 
 (* `dec` really is the decimal numeral: reading the digits back gives the number *)
 Theorem dec_is_decimal : forall n, fold_left (fun a d => 10 * a + (d - 48)) (dec n) 0 = n.
@@ -145,11 +140,14 @@ Example c18_display_example :
         ++ [116;46;112;121;58;50;58;51;58;10]
         ++ [50;32;124;32;32;32;36;32;121;10]
         ++ [32;32;124;32;32;32;94;94;94;10])
-  (* "t.py:2:3: missing syntax\n"  and  "missing syntax\n\n" *)
+  (* "t.py:2:3: missing syntax\n"  and  "missing syntax\nt.py:2:3:\n2 |   $ y\n  |   \n" *)
   /\ display_plain [116;46;112;121] ex_src KMissing ex_pos_empty =
     Ok [116;46;112;121;58;50;58;51;58;32;109;105;115;115;105;110;103;32;115;121;110;116;97;120;10]
   /\ display_pretty [116;46;112;121] ex_src KMissing ex_pos_empty =
-    Ok [109;105;115;115;105;110;103;32;115;121;110;116;97;120;10;10]
+    Ok ([109;105;115;115;105;110;103;32;115;121;110;116;97;120;10]
+        ++ [116;46;112;121;58;50;58;51;58;10]
+        ++ [50;32;124;32;32;32;36;32;121;10]
+        ++ [32;32;124;32;32;32;10])
   (* slicing inside a character is a panic in the model, as in Rust *)
   /\ display_plain [116;46;112;121] ex_src KUnexpected ex_pos_bad = Panic 1
   /\ display_pretty [116;46;112;121] ex_src KUnexpected ex_pos_bad = Panic 3.
